@@ -80,8 +80,6 @@ def body_trim(case, ctx):
         vals = tuple(excl) if case.get("as_tuple") else list(excl)
         out = trim(ras, values=vals)
     _cmp_window(r, out, before, t, b, l, rr, "trim")
-    if not before.identical(ras):
-        r.fail("trim.mutated_input", "input changed")
     return r
 
 
